@@ -179,7 +179,12 @@ def ref_face(uri):
     scheme, rest = uri.split('://', 1)
     scheme = scheme.lower()
     if scheme == 'unix':
-        return ('unix', rest) if rest.startswith('/') and len(rest) > 1 else None
+        if rest.startswith('/') and len(rest) > 1:
+            return ('unix', rest)
+        auth, sl, path = rest.partition('/')
+        if auth.lower() == 'localhost' and sl and path:
+            return ('unix', '/' + path)         # unix://localhost/path: the authority is not part of the socket path
+        return None
     if scheme not in ('tcp', 'tcp4', 'tcp6', 'udp', 'udp4', 'udp6'):
         return ('error',)
     hostport = rest.split('/', 1)[0]
@@ -377,7 +382,8 @@ class ConfWorld(World):
 TRANSPORTS_OK = ['unix:///run/nfd/nfd.sock', 'unix:///run/nfd.sock', 'unix:///tmp/my.sock', 'unix:///var/run/NFD/Nfd.sock', 'unix:///tmp/MySock',
                  'TCP://10.1.2.9:7001', 'tcp://10.1.2.3', 'tcp://10.1.2.3:7000',
                  'tcp4://nfd.example.net:6363', 'tcp6://[::1]:6363', 'tcp6://[2001:db8::1]', 'udp://10.9.8.7', 'udp4://10.9.8.7:56363',
-                 'udp6://[fe80::2]:6364', 'tcp://localhost', 'udp://router:1']
+                 'udp6://[fe80::2]:6364', 'tcp://localhost', 'udp://router:1', 'unix://localhost/run/nfd/nfd.sock',
+                 'unix://LocalHost/tmp/Other.sock']
 TRANSPORTS_BAD = ['ws://10.1.2.3:9696', 'wss://x', 'http://nfd', 'dev://eth0', 'ether://[01:00:5e:00:17:aa]', 'nfd.sock', '',
                   'tcp:/10.0.0.1', 'internal://', 'unixs:///run/nfd.sock', 'tcp46://10.1.2.3', 'tcp44://10.1.2.3:6363', 'udp66://[::1]',
                   'udp64://router', 'tcp5://10.1.2.3', 'udp7://10.1.2.3', 'tcpx://10.1.2.3', 'xtcp://10.1.2.3', 'tcp-4://h', 'udp://',
@@ -420,6 +426,8 @@ def generate(rng, seed, tier='quick'):
             return scheme                                   # no location
         if cls == 1:
             loc = f'/var/lib/ndn/{kind}{rng.randint(0, 3)}'
+            if rng.random() < 0.12:
+                loc += rng.choice(['-100%full', '.a:b', '%d', ':1'])      # characters a path may well contain
             dirs.add(loc)
             return f'{scheme}:{loc}'                        # exists, absolute
         if cls == 2:
